@@ -38,7 +38,7 @@ def cases(ctx):
         cmd = ref.CONVERT[k % len(ref.CONVERT)]
         k += 1
         dts = arr.DTYPES_Q if ctx.quick or rng.random() < 0.7 else arr.DTYPES_T
-        c = cmdgen.gen_case(rng, cmd, dtypes=dts, max_cells=40, distinct2=True, wild=rng.random() < 0.25)
+        c = cmdgen.gen_case(rng, cmd, dtypes=dts, max_cells=40, distinct2=True, wild=rng.random() < 0.25, offset=cmd in cmdgen.STATS and rng.random() < 0.15)
         if cmd in ("NormalizeCat", "CvtToFuzzyCat", "NormalizeMeanToMid", "CvtToFuzzyMeanToMid") and rng.random() < 0.5:
             # small integer categories / data with zeros
             s = c["inputs"][0]
